@@ -34,10 +34,10 @@ def headerBytes (s : Sll) : Bytes :=
   OutCursor.beBytes 2 s.protocol
 
 def tagFor (cx : Ctx) (s : Sll) : Nat :=
-  match cx.innerCls with
+  match cx.inners.head? with
   | none => s.protocol
-  | some cls =>
-    let flag := Tags.etherOfPduType (Tags.pduTypeOf cls)
+  | some i =>
+    let flag := etherTagOf i
     if flag != 0 then flag else s.protocol
 
 /-- `SLL::write_serialization` -/
